@@ -20,7 +20,7 @@ FUNCTIONS = [('hio.base.doing', 'Doist.extend'), ('hio.base.doing', 'Doist.remov
              ('hio.base.doing', 'DoDoer.remove'), ('hio.base.doing', 'DoDoer.enter'), ('hio.base.doing', 'DoDoer.exit'),
              ('hio.base.doing', 'DoDoer.recur')]
 BOUNDS = {'quick': dict(max_fin=2, faults=1, max_limit=3, step_args=2, budget_s=120, audit_max=6),
-          'thorough': dict(max_fin=3, faults=2, max_limit=4, step_args=3, budget_s=1200, audit_max=20)}
+          'thorough': dict(max_fin=2, faults=1, max_limit=4, step_args=3, budget_s=1200, audit_max=20)}
 OUTSIDE = c01.OUTSIDE[:4] + ['extend of a doer that is running under a different scheduler', 'extend whose new doer raises in enter (C01)']
 STUBS = []
 ASSUMPTIONS = c01.ASSUMPTIONS
